@@ -804,6 +804,13 @@ func (nz *normaliser) list(list []ast.Stmt) []ast.Stmt {
 					continue
 				}
 			}
+			if r, ok := list[i+1].(*ast.ReturnStmt); ok && i+2 == len(list) {
+				if rep := nz.assignThenReturn(st, r); rep != nil {
+					out = append(out, rep...)
+					i++
+					continue
+				}
+			}
 		}
 		if rep := nz.stmt(st); rep != nil {
 			out = append(out, spliceBlocks(rep)...)
@@ -1146,7 +1153,7 @@ func (nz *normaliser) predicateIf(s *ast.IfStmt) []ast.Stmt {
 	if freeBreak(s.Body) || (s.Else != nil && freeBreak(s.Else)) || hasLabels(s) || countReturns(h.decl.Body) > 12 {
 		return nil
 	}
-	body := nz.expandBody(h, call, nil, false, &continuation{ifs: s, pred: true, neg: neg, nilIdx: -1})
+	body := nz.expandBody(h, call, nil, false, &continuation{ifs: s, pred: true, neg: neg, nilIdx: -1, cmpIdx: -1})
 	if body == nil {
 		return nil
 	}
@@ -1190,11 +1197,7 @@ func (nz *normaliser) assignThenIf(st ast.Stmt, is *ast.IfStmt, isInit bool) []a
 	if !mentions || freeBreak(is.Body) || (is.Else != nil && freeBreak(is.Else)) || hasLabels(is) || countReturns(h.decl.Body) > 12 {
 		return nil
 	}
-	// the copied test only pays off when its body leaves (otherwise the plain expansion is as good)
-	if !terminates(is.Body.List) {
-		return nil
-	}
-	k := &continuation{ifs: is, nilIdx: -1}
+	k := &continuation{ifs: is, nilIdx: -1, cmpIdx: -1}
 	if x, y, op, ok := binaryCmp(is.Cond); ok && op == token.NEQ && isNilIdent(y) {
 		if id, ok := ast.Unparen(x).(*ast.Ident); ok {
 			if i, ok := names[id.Name]; ok {
@@ -1202,8 +1205,43 @@ func (nz *normaliser) assignThenIf(st ast.Stmt, is *ast.IfStmt, isInit bool) []a
 			}
 		}
 	}
+	if x, y, op, ok := binaryCmp(is.Cond); ok && (op == token.NEQ || op == token.EQL) {
+		if id, ok := ast.Unparen(x).(*ast.Ident); ok {
+			if i, ok := names[id.Name]; ok {
+				if isNilIdent(y) {
+					k.cmpIdx, k.cmpOp, k.cmpKind = i, op, "nil"
+				} else if bl, ok := ast.Unparen(y).(*ast.BasicLit); ok && bl.Kind == token.STRING && (bl.Value == `""` || bl.Value == "``") {
+					k.cmpIdx, k.cmpOp, k.cmpKind = i, op, "empty"
+				}
+			}
+		}
+	}
+	{
+		c, neg := ast.Unparen(is.Cond), false
+		if u, ok := c.(*ast.UnaryExpr); ok && u.Op == token.NOT {
+			c, neg = ast.Unparen(u.X), true
+		}
+		if id, ok := c.(*ast.Ident); ok && k.cmpIdx < 0 {
+			if i, ok := names[id.Name]; ok {
+				// `if !ok` is taken when ok is the sentinel false; `if ok` when it is not
+				k.cmpIdx, k.cmpKind = i, "bool"
+				if neg {
+					k.cmpOp = token.EQL
+				} else {
+					k.cmpOp = token.NEQ
+				}
+			}
+		}
+	}
+	// the copied test only pays off when its body leaves (otherwise the plain expansion is as good) - or when the helper
+	// signals "nothing" with a sentinel value (return "" / return nil) that the caller tests: at every return site the
+	// outcome of that test is then evident, and the sentinel disappears
+	if !terminates(is.Body.List) && !k.decidesAllReturns(h) {
+		return nil
+	}
 	if isInit {
 		is.Init = nil
+		k.scoped = as.Tok == token.DEFINE
 	}
 	var pre []ast.Stmt
 	if !nz.freeOK(h, h.decl.Type.Results, nz.pk, nz.file, call.Pos()) {
@@ -1239,6 +1277,91 @@ func (nz *normaliser) assignThenIf(st ast.Stmt, is *ast.IfStmt, isInit bool) []a
 		return []ast.Stmt{&ast.BlockStmt{List: out}}
 	}
 	return out
+}
+
+// assignThenReturn: `v := h(x)` directly followed by `return …, v, …` at the end of a statement list: the return moves
+// to the return sites of h, with the value in place of the variable (`status := statusOf(err); return nil, msg, status`
+// becomes one return per status, which is what stood there before the mapping was given a name).
+func (nz *normaliser) assignThenReturn(st ast.Stmt, r *ast.ReturnStmt) []ast.Stmt {
+	info := nz.pk.TypesInfo
+	as, ok := st.(*ast.AssignStmt)
+	if !ok || len(as.Rhs) != 1 || as.Tok != token.DEFINE {
+		return nil
+	}
+	call, ok := ast.Unparen(as.Rhs[0]).(*ast.CallExpr)
+	if !ok {
+		return nil
+	}
+	h := nz.helperOf(info, call)
+	if h == nil || h.single != nil || h.nres != len(as.Lhs) || countReturns(h.decl.Body) > 12 {
+		return nil
+	}
+	// every received variable is new, and is a plain result of the return (once)
+	for _, l := range as.Lhs {
+		id, ok := l.(*ast.Ident)
+		if !ok || id.Name == "_" || info.Defs[id] == nil {
+			return nil
+		}
+		n := 0
+		for _, e := range r.Results {
+			if rid, ok := ast.Unparen(e).(*ast.Ident); ok && rid.Name == id.Name {
+				n++
+			}
+		}
+		m := 0
+		ast.Inspect(r, func(x ast.Node) bool {
+			if rid, ok := x.(*ast.Ident); ok && rid.Name == id.Name {
+				m++
+			}
+			return true
+		})
+		if n != 1 || m != 1 {
+			return nil
+		}
+	}
+	// the other results are evaluated after h's body instead of before: they must not care
+	for _, e := range r.Results {
+		if !nz.pure(info, e) {
+			if c, isC := ast.Unparen(e).(*ast.CallExpr); !isC || !isErrorMethodCall(c) {
+				return nil
+			}
+		}
+	}
+	// every return of h can be substituted
+	okAll := true
+	ast.Inspect(h.decl.Body, func(x ast.Node) bool {
+		switch y := x.(type) {
+		case *ast.FuncLit:
+			return false
+		case *ast.ReturnStmt:
+			if len(y.Results) != h.nres {
+				okAll = false
+			}
+		}
+		return okAll
+	})
+	if !okAll || !nz.freeOK(h, h.decl.Type.Results, nz.pk, nz.file, call.Pos()) {
+		return nil
+	}
+	var lhs []ast.Expr
+	for _, l := range as.Lhs {
+		lhs = append(lhs, l)
+	}
+	body := nz.expandBody(h, call, lhs, false, &continuation{nilIdx: -1, cmpIdx: -1, ret: r})
+	if body == nil {
+		return nil
+	}
+	return []ast.Stmt{body}
+}
+
+// isErrorMethodCall: err.Error() on a plain variable.
+func isErrorMethodCall(c *ast.CallExpr) bool {
+	sel, ok := ast.Unparen(c.Fun).(*ast.SelectorExpr)
+	if !ok || sel.Sel.Name != "Error" || len(c.Args) != 0 {
+		return false
+	}
+	_, isID := ast.Unparen(sel.X).(*ast.Ident)
+	return isID
 }
 
 func hasLabels(n ast.Node) bool {
@@ -1429,6 +1552,142 @@ type continuation struct {
 	pred   bool        // the call is the condition of ifs (possibly negated)
 	neg    bool
 	nilIdx int // !pred: ifs.Cond is `lhs[nilIdx] != nil` (-1: some other test of the results)
+	// !pred: ifs.Cond compares lhs[cmpIdx] with a sentinel ("" or nil) using cmpOp (== or !=); cmpIdx is -1 otherwise
+	cmpIdx  int
+	cmpOp   token.Token
+	cmpKind string // "nil" or "empty"
+	// ret: instead of a test, the statement after the assignment is this return, which hands the received values on
+	ret *ast.ReturnStmt
+	// scoped: the receiving variables are declared by the init statement of ifs, so nothing after ifs can read them
+	scoped bool
+}
+
+// sentinelOutcome: what the caller's sentinel test says about the value e a return site is about to hand over, when
+// that is evident from the expression (known == false otherwise).
+func (k *continuation) sentinelOutcome(e ast.Expr) (known, taken bool) {
+	if k == nil || k.cmpIdx < 0 {
+		return false, false
+	}
+	isSentinel, isOther := false, false
+	e = ast.Unparen(e)
+	switch k.cmpKind {
+	case "nil":
+		if id, ok := e.(*ast.Ident); ok && id.Name == "nil" {
+			isSentinel = true
+		} else if evidentlyNonNil(e) {
+			isOther = true
+		}
+	case "bool":
+		// the test is the variable itself (cmpOp ==: `!ok`, i.e. ok == false)
+		if id, ok := e.(*ast.Ident); ok && (id.Name == "true" || id.Name == "false") {
+			if id.Name == "false" {
+				isSentinel = true
+			} else {
+				isOther = true
+			}
+		}
+	case "empty":
+		if bl, ok := e.(*ast.BasicLit); ok && bl.Kind == token.STRING {
+			if bl.Value == `""` || bl.Value == "``" {
+				isSentinel = true
+			} else {
+				isOther = true
+			}
+		} else if evidentlyNonEmpty(e) {
+			isOther = true
+		}
+	}
+	if !isSentinel && !isOther {
+		return false, false
+	}
+	return true, isSentinel == (k.cmpOp == token.EQL)
+}
+
+// endsInReturn: the last statement is a return.
+func endsInReturn(list []ast.Stmt) bool {
+	if len(list) == 0 {
+		return false
+	}
+	_, ok := list[len(list)-1].(*ast.ReturnStmt)
+	return ok
+}
+
+// capturedByLiteral: one of the variables is mentioned inside a function literal of the function being rewritten (a
+// deferred closure could still read it after a return).
+func (nz *normaliser) capturedByLiteral(lhs []ast.Expr) bool {
+	if nz.cur == nil || nz.cur.Body == nil {
+		return true
+	}
+	names := map[string]bool{}
+	for _, l := range lhs {
+		if id, ok := l.(*ast.Ident); ok {
+			names[id.Name] = true
+		}
+	}
+	// named results are read by the caller after a return
+	if nz.cur.Type.Results != nil {
+		for _, f := range nz.cur.Type.Results.List {
+			for _, n := range f.Names {
+				if names[n.Name] {
+					return true
+				}
+			}
+		}
+	}
+	found := false
+	ast.Inspect(nz.cur.Body, func(x ast.Node) bool {
+		if fl, ok := x.(*ast.FuncLit); ok {
+			ast.Inspect(fl, func(y ast.Node) bool {
+				if id, ok := y.(*ast.Ident); ok && names[id.Name] {
+					found = true
+				}
+				return !found
+			})
+			return false
+		}
+		return !found
+	})
+	return found
+}
+
+// evidentlyNonEmpty: a string expression with a non-empty literal among its concatenated parts.
+func evidentlyNonEmpty(e ast.Expr) bool {
+	switch x := ast.Unparen(e).(type) {
+	case *ast.BasicLit:
+		return x.Kind == token.STRING && x.Value != `""` && x.Value != "``"
+	case *ast.BinaryExpr:
+		return x.Op == token.ADD && (evidentlyNonEmpty(x.X) || evidentlyNonEmpty(x.Y))
+	}
+	return false
+}
+
+// decidesAllReturns: every return of the helper hands over, in the tested position, a value for which the outcome of the
+// caller's sentinel test is evident.
+func (k *continuation) decidesAllReturns(h *helper) bool {
+	if k.cmpIdx < 0 {
+		return false
+	}
+	all := true
+	n := 0
+	var walk func(n ast.Node) bool
+	walk = func(x ast.Node) bool {
+		switch r := x.(type) {
+		case *ast.FuncLit:
+			return false
+		case *ast.ReturnStmt:
+			n++
+			if len(r.Results) != h.nres {
+				all = false
+				return false
+			}
+			if known, _ := k.sentinelOutcome(r.Results[k.cmpIdx]); !known {
+				all = false
+			}
+		}
+		return all
+	}
+	ast.Inspect(h.decl.Body, walk)
+	return all && n > 0
 }
 
 func (nz *normaliser) expandBody(h *helper, call *ast.CallExpr, lhs []ast.Expr, tail bool, ks ...*continuation) ast.Stmt {
@@ -1750,6 +2009,14 @@ func (nz *normaliser) expandBody(h *helper, call *ast.CallExpr, lhs []ast.Expr, 
 					out = append(out, &ast.AssignStmt{Lhs: []ast.Expr{ast.NewIdent("_")}, Tok: token.ASSIGN, Rhs: []ast.Expr{e}})
 				}
 			}
+			if k != nil && k.ret != nil {
+				rr := cloneNode(k.ret)
+				if len(res) == len(lhs) && substResults(rr, lhs, res) {
+					nGenAssign--
+					return []ast.Stmt{rr}
+				}
+				return append(out, rr)
+			}
 			if k != nil && !k.pred {
 				// the caller's test of the results, copied to this return site (dropped where the tested result is a literal nil)
 				skip := false
@@ -1758,8 +2025,52 @@ func (nz *normaliser) expandBody(h *helper, call *ast.CallExpr, lhs []ast.Expr, 
 						skip = true
 					}
 				}
+				known, taken := false, false
+				if len(res) == len(lhs) && k.cmpIdx >= 0 && k.cmpIdx < len(res) {
+					known, taken = k.sentinelOutcome(res[k.cmpIdx])
+				}
 				switch {
 				case skip:
+				case known && !(k.nilIdx >= 0 && k.ifs.Else == nil && evidentlyNonNil(res[k.nilIdx])):
+					// the outcome of the caller's test is evident here: the branch itself takes the place of the test
+					var branch []ast.Stmt
+					if taken {
+						branch = cloneNode(k.ifs.Body).List
+					} else if k.ifs.Else != nil {
+						if eb, ok := k.ifs.Else.(*ast.BlockStmt); ok {
+							branch = cloneNode(eb).List
+						} else {
+							branch = []ast.Stmt{cloneNode(k.ifs.Else)}
+						}
+					}
+					// receiving variables that nothing can read any more are not assigned (return "" meaning "nothing")
+					if (k.scoped || endsInReturn(branch)) && len(out) > 0 && out[len(out)-1] == ast.Stmt(lastGenAssign) && !nz.capturedByLiteral(lhs) {
+						read := false
+						for _, l := range lhs {
+							nm := l.(*ast.Ident).Name
+							for _, st := range branch {
+								ast.Inspect(st, func(x ast.Node) bool {
+									if id, ok := x.(*ast.Ident); ok && id.Name == nm {
+										read = true
+									}
+									return !read
+								})
+							}
+						}
+						simple := true
+						for _, e := range res {
+							switch ast.Unparen(e).(type) {
+							case *ast.BasicLit, *ast.Ident:
+							default:
+								simple = false
+							}
+						}
+						if !read && simple {
+							out = out[:len(out)-1]
+							nGenAssign--
+						}
+					}
+					out = append(out, branch...)
 				case len(res) == len(lhs) && k.nilIdx >= 0 && k.nilIdx < len(res) && k.ifs.Else == nil && evidentlyNonNil(res[k.nilIdx]):
 					// the tested result is a freshly built error: the caller's branch is taken for certain. If that branch is a
 					// single return that hands the results on, the values are put into it directly (`return nil, &Error{…}`,
